@@ -80,7 +80,10 @@ ModelFailures(c, m) ==
           \o (IF m.is_countermodel # 1 THEN <<F("LibraryAgrees", -1, "")>> ELSE <<>>)
 
 Failures(c) ==
-  IF c.nmodels_expected # Len(c.models)
+  IF c.raised # ""
+  THEN <<[id |-> c.id, logic |-> c.logic, argstr |-> c.argstr, branch |-> -1, clause |-> "RaisedInsteadOfCountermodel",
+          node |-> -1, shape |-> c.raised, rules |-> c.rules, gap |-> "", mixes |-> FALSE]>>
+  ELSE IF c.nmodels_expected # Len(c.models)
   THEN <<[id |-> c.id, logic |-> c.logic, argstr |-> c.argstr, branch |-> -1, clause |-> "ModelPerOpenBranch",
           node |-> -1, shape |-> "", rules |-> c.rules, gap |-> "", mixes |-> FALSE]>>
   ELSE FlattenSeq([j \in 1..Len(c.models) |-> ModelFailures(c, c.models[j])])
